@@ -32,8 +32,10 @@ RULE = ("pop-on programs built from an abstract model: per caption [ENM] RCL, 1-
 ASSUMPTIONS = [
     "rows are loaded in ascending order with one PAC each; tab offsets directly follow a PAC",
     "whitespace: a transmitted space between two visible characters must survive, no "
-    "whitespace may appear between adjacently transmitted characters; around mid-row codes "
-    "and column gaps either is accepted (pinned by the 2.2.8-2.2.13 changelog)",
+    "whitespace may appear between adjacently transmitted characters; the cell a mid-row code "
+    "occupies must read as white space, except before . , ! ? (the pinned tree drops it there "
+    "for single codes, see the 2.2.8-2.2.13 changelog: either is accepted) and on rows where a "
+    "backspace or an extended character rewrote the neighbourhood; at column gaps either is accepted",
     "0x7F is not judged (pycaption maps it to nothing)",
 ]
 
@@ -110,12 +112,26 @@ def compare(prog, rec, doc=None, lines=None):
         for li, (pline, eline) in enumerate(zip(pl_nonempty, e["lines"])):
             echars = []
             sep = "none"
+            # the blank cell of a mid-row code is demanded only on rows where the displayed
+            # neighbour is the transmitted one (no backspace / extended character rewrote it)
+            strict_mid = False
+            try:
+                prow = [r for r in prog["captions"][e["screen"]]["rows"] if r["row"] == e["row"] + li]
+                strict_mid = len(prow) == 1 and not any(it[0] in ("bs", "ex") for it in prow[0]["items"])
+            except (IndexError, KeyError, TypeError):
+                strict_mid = False
             for ch, it, kind in eline:
                 if kind == "char" and not ch.isspace():
+                    if sep == "mid" and ch in ".,!?":
+                        sep = "free"     # pinned: no blank for a mid-row code before punctuation
                     echars.append((ch, it, sep if echars else "free"))
                     sep = "none"
                 elif kind == "space" or (kind == "char" and ch.isspace()):
                     sep = "space"
+                elif kind == "mid":
+                    if sep not in ("space", "free"):
+                        # the cell a mid-row code occupies is displayed as a blank
+                        sep = "mid" if strict_mid else "free"
                 else:
                     if sep != "space":
                         sep = "free"
@@ -129,6 +145,8 @@ def compare(prog, rec, doc=None, lines=None):
                                 f"text {c.get_text()!r}: {doc}")
                 if k and esep == "none":
                     require(not gws, lambda: f"{what} line {li}: whitespace inserted before {ch!r} in {c.get_text()!r}: {doc}")
+                if k and esep == "mid":
+                    require(gws, lambda: f"{what} line {li}: the blank cell of a mid-row code is missing before {ch!r} in {c.get_text()!r}: {doc}")
                 if k and esep == "space":
                     require(gws, lambda: f"{what} line {li}: transmitted space lost before {ch!r} in {c.get_text()!r}: {doc}")
         L = c.layout_info
